@@ -610,6 +610,20 @@ pub fn dense_start(st: &AnyState, steps: u64, seed: u64) -> Option<AnyState> {
     r.ok().and_then(|d| AnyState::from_json(&d).ok())
 }
 
+/// One real run of a built optimiser on a copy of the state (real generator, no script).
+pub fn run_real(st: &AnyState, b: &packing::BuildOptimiser) -> Result<Value, String> {
+    fn go<S: State>(s: &S, b: &packing::BuildOptimiser) -> Value {
+        serde_json::to_value(&b.build().optimise_state(s.clone())).unwrap_or(Value::Null)
+    }
+    verif_hooks::install(None);
+    panic::catch_unwind(AssertUnwindSafe(|| match st {
+        AnyState::Poly(s) => go(s, b),
+        AnyState::Mol(s) => go(s, b),
+        AnyState::Lj(s) => go(s, b),
+    }))
+    .map_err(|p| if let Some(s) = p.downcast_ref::<&str>() { s.to_string() } else if let Some(s) = p.downcast_ref::<String>() { s.clone() } else { "panic".into() })
+}
+
 /// Delegating State that feeds the explorer's event stream (parameter vector = the six numbers
 /// of the serialised state).
 pub struct Recorder<S: State> {
@@ -1000,6 +1014,42 @@ pub fn c08(tier: Tier) -> ! {
         }
     }
     run.set("hexagonal_and_square_cell_chains", odd_family_stages);
+    // jammed states, a convergence threshold and very short inner loops with large steps (most
+    // proposals refused, many in a row): the state handed back has a score and lies in its ranges
+    let mut jam_runs = 0u64;
+    {
+        let prev_hook = panic::take_hook();
+        panic::set_hook(Box::new(|_| {}));
+        for g in ["p1", "p2", "p2gg", "p1m1"].iter() {
+            for spec in [ShapeSpec::Polygon(4), ShapeSpec::Trimer(0.637556, 120., 1.), ShapeSpec::LjCircle].iter() {
+                for seed in 0..tier.pick(3u64, 10u64) {
+                    let start = match dense_start(&AnyState::from_group(g, spec), 600, seed) {
+                        Some(s) => s,
+                        None => continue,
+                    };
+                    for &(inner, ms) in [(3u64, 0.5), (4, 1.), (1, 0.3)].iter() {
+                        let mut b = packing::BuildOptimiser::default();
+                        b.steps(240).inner_steps(inner).kt_start(0.).kt_ratio(Some(0.)).max_step_size(ms).convergence(Some(1e-6)).seed(seed + 11);
+                        jam_runs += 1;
+                        let case = json!({"engine": "document", "group": g, "shape_label": spec.label(), "state": start.to_json(), "inner_steps": inner, "max_step_size": ms, "seed": seed + 11});
+                        match run_real(&start, &b) {
+                            Err(msg) => run.fail(None, &format!("{} {}: a run from a jammed state (inner_steps {}, convergence 1e-6) panicked: {}", g, spec.label(), inner, msg), case),
+                            Ok(doc) => {
+                                let sc = AnyState::from_json(&doc).ok().and_then(|s| s.score());
+                                if !sc.map(|x| x.is_finite()).unwrap_or(false) {
+                                    run.fail(None, &format!("{} {}: a run from a jammed state (inner_steps {}, convergence 1e-6) handed back a state whose score is {:?}", g, spec.label(), inner, sc), case);
+                                } else if let Some(w) = check_ranges(&doc, &start.to_json(), "returned state") {
+                                    run.fail(None, &format!("{} {}: {}", g, spec.label(), w), case);
+                                }
+                            }
+                        }
+                    }
+                }
+            }
+        }
+        panic::set_hook(prev_hook);
+    }
+    run.set("runs_from_jammed_states_with_a_threshold", jam_runs);
     run.set("states", f.states);
     run.set("transitions", f.transitions);
     run.set("traces_validated_against_impl", f.transitions);
